@@ -6,6 +6,7 @@ import (
 
 	_ "verifharness/mon/c01"
 	_ "verifharness/mon/c02"
+	_ "verifharness/mon/c03"
 	_ "verifharness/mon/c04"
 	_ "verifharness/mon/c05"
 	_ "verifharness/mon/c06"
